@@ -227,6 +227,58 @@ def make_data(case):
     return x
 
 
+def base_slots(name):
+    for r in TABLES["get"]:
+        if (r["fam"], r["meth"], r["fixed"], r["expl"], r["mode"]) == (name, "cdf", [], [], 0) and r["result"]:
+            return r["result"][2]
+    return None
+
+
+def reference_fit(case, x, before):
+    """scipy fit with the slots pinned that the parameter map (not the code's keyword translation) assigns to
+    the fixed parameters; starts as recorded for this family. None if the family does not call scipy."""
+    name = case["family"]
+    cls, params = sentinel.family(name)
+    F, farg = case["fixed"], case["farg"]
+    row = [r for r in TABLES["fit"] if r["fam"] == name and r["fixed"] == F]
+    base = base_slots(name)
+    if not row or row[0]["outcome"][0] != "called" or base is None or case.get("method", "mle") != "mle":
+        return None
+    _, dist, starts, kws = row[0]["outcome"]
+    d = getattr(sts, dist)
+    n = len([s for s in d.shapes.split(",")]) if d.shapes else 0
+    env = {}
+    for p, pn in enumerate(params):
+        env[("arg", p)] = float(before[pn])
+        env[("farg", p)] = float(farg[p])
+    pins = {}
+    for j in range(n + 2):
+        e = base[j] if j < len(base) else sentinel.S("int", 0 if j == n else 1)
+        ps = arg_params(e)
+        if all(p in F for p in ps):
+            v = sentinel.evaluate(e, {("arg", p): float(farg[p]) for p in ps})
+            pins["floc" if j == n else "fscale" if j == n + 1 else f"f{j}"] = v
+    try:
+        pos = [sentinel.evaluate(e, env) for e in starts]
+        other = {k: sentinel.evaluate(v, env) for k, v in kws if k in ("loc", "scale")}
+        with np.errstate(all="ignore"), warnings.catch_warnings():
+            warnings.simplefilter("ignore")
+            res = d.fit(x, *pos, **other, **pins)
+        return dist, [float(v) for v in res]
+    except Exception:  # noqa: BLE001  (reference not computable: no verdict from this oracle)
+        return None
+
+
+def arg_params(e):
+    if e.op == "arg":
+        return [e.args[0]]
+    out = []
+    for a in e.args:
+        if isinstance(a, sentinel.S):
+            out += arg_params(a)
+    return out
+
+
 def check_fit(case):
     """one real fit; returns (bad, info)"""
     name = case["family"]
@@ -266,6 +318,21 @@ def check_fit(case):
             elif float(v) == float(before[pn]):
                 bad.append((_sig(name + ".fit", "free_estimated", method=case.get("method", "mle")),
                             f"{pn} = {v!r} unchanged by the fit (fixed {[params[q] for q in F]})"))
+    # the estimate is the one *given* the fixed values: same scipy fit with exactly the slots pinned that the
+    # parameter map assigns to the fixed parameters (same starts as the code used)
+    ref = reference_fit(case, x, before)
+    if ref is not None:
+        dist, want = ref
+        base = base_slots(name)
+        env = {("arg", p): float(after[pn]) for p, pn in enumerate(params)}
+        got = [sentinel.evaluate(e, env) for e in base]
+        if len(got) < len(want):  # slots the family does not pass: scipy's defaults loc = 0, scale = 1
+            got += [0.0, 1.0][len(got) - len(want):]
+        if len(got) != len(want) or any(abs(g - w) > 1e-7 * max(abs(g), abs(w), 1e-300) for g, w in zip(got, want)):
+            bad.append((_sig(name + ".fit", "estimate_given_fixed", method="mle"),
+                        f"fixed {[params[q] for q in F]}={[farg[q] for q in F]}: scipy slots after the fit {got} but "
+                        f"scipy.stats.{dist}.fit with those slots pinned gives {want}"))
+        info["reference"] = True
     # evaluation after the fit uses the fixed value
     with np.errstate(all="ignore"):
         xs = np.quantile(x, [0.2, 0.5, 0.8])
@@ -331,6 +398,8 @@ def run_fits(ck, cases, workers):
         ck.case(case, nontrivial=True, sample=(len(ck.samples) < 4))
         ck.count("fit:" + case["family"])
         ck.count("fitdata:" + case["data"])
+        if info.get("reference"):
+            ck.count("fit:compared_with_reference_fit")
         if "free_not_moved" in info:
             ck.count("scipy_optimizer_stuck_at_start")
         if "optimizer_failure" in info:
